@@ -34,11 +34,55 @@ func Worker() *W {
 	return &W{i, n}
 }
 
+// RaceWorker returns the shard coordinates when this process is a worker of the race pass (the
+// -race build of the harness, started by SpawnRace).
+func RaceWorker() *W {
+	s := os.Getenv("VERIF_RACE_WORKER")
+	if s == "" {
+		return nil
+	}
+	parts := strings.Split(s, "/")
+	if len(parts) != 2 {
+		return nil
+	}
+	i, _ := strconv.Atoi(parts[0])
+	n, _ := strconv.Atoi(parts[1])
+	return &W{i, n}
+}
+
 // Timeout for one worker; generous, a hit is reported as a broken check (exit 2), not a verdict.
 var Timeout = 40 * time.Minute
 
+// SpawnRace starts n workers of the -race build of the harness (VERIF_RACE_BIN, built by bin/check)
+// with the detector logging to a per-process file, and merges their results into c.
+func SpawnRace(c *evid.Ctx, n int) {
+	bin := os.Getenv("VERIF_RACE_BIN")
+	if bin == "" {
+		c.Broken("VERIF_RACE_BIN is not set: the race pass needs the -race build that bin/check prepares")
+		return
+	}
+	dir := os.Getenv("VERIF_RACE_DIR")
+	if dir == "" {
+		dir = os.TempDir()
+	}
+	prefix := fmt.Sprintf("%s/race.%d", dir, os.Getpid())
+	spawn(c, n, true, bin, func(i int) []string {
+		return []string{
+			fmt.Sprintf("VERIF_RACE_WORKER=%d/%d", i, n),
+			"VERIF_RACE_LOG=" + prefix,
+			// every report is wanted, every time: no de-duplication by stack or address (a replay
+			// must see the same reports), no exit-code change, no sleep at exit
+			"GORACE=log_path=" + prefix + " halt_on_error=0 suppress_equal_stacks=0 suppress_equal_addresses=0 exitcode=0 atexit_sleep_ms=0",
+		}
+	})
+}
+
 // Spawn starts n workers of the current command line and merges their results into c.
 func Spawn(c *evid.Ctx, n int, singleProc bool) {
+	spawn(c, n, singleProc, os.Args[0], func(i int) []string { return []string{fmt.Sprintf("VERIF_WORKER=%d/%d", i, n)} })
+}
+
+func spawn(c *evid.Ctx, n int, singleProc bool, bin string, env func(i int) []string) {
 	var wg sync.WaitGroup
 	var mu sync.Mutex
 	for i := 0; i < n; i++ {
@@ -47,8 +91,8 @@ func Spawn(c *evid.Ctx, n int, singleProc bool) {
 			defer wg.Done()
 			ctx, cancel := context.WithTimeout(context.Background(), Timeout)
 			defer cancel()
-			cmd := exec.CommandContext(ctx, os.Args[0], os.Args[1:]...)
-			cmd.Env = append(os.Environ(), fmt.Sprintf("VERIF_WORKER=%d/%d", i, n))
+			cmd := exec.CommandContext(ctx, bin, os.Args[1:]...)
+			cmd.Env = append(os.Environ(), env(i)...)
 			if singleProc {
 				cmd.Env = append(cmd.Env, "GOMAXPROCS=1")
 			}
